@@ -189,6 +189,102 @@ def violations_of(c):
     return out
 
 
+# ----------------------------------------------------------------------------- reproducible-only verdicts
+
+RERUN_CAP = 40        # at most this many failing cases are re-run one by one
+RERUN_SAMPLE = 10     # more failing cases than RERUN_CAP is systemic: re-run a sample ...
+RERUN_SAMPLE_OK = 8   # ... and when this many of the sample reproduce, report everything
+
+
+def _norm(what, key):
+    """a violation's kind: its key / group, or its text without the numbers"""
+    import re
+    return key or re.sub(r"-?\d+", "#", what)
+
+
+def rerun_case(gobin, seed, op, args, vlimit_kb=24_000_000):
+    """One case ALONE in a fresh process (sequential; nothing else of this check is running).
+    Returns a case dict like the ones parsed from the enumeration's output."""
+    import shlex
+    cmd = f"ulimit -v {vlimit_kb}; exec {shlex.quote(gobin)} -seed {int(seed)} -case {shlex.quote(op + ' ' + args)}"
+    rc, out, err, dt = L.sh(cmd, timeout=120)
+    if rc != 0 or not out.strip():
+        if "out of memory" in err or "cannot allocate" in err:
+            go = "OOM"
+        elif "panic:" in err or "fatal error:" in err:
+            go = "PANIC"
+        elif rc == 124:
+            go = "HANG"
+        else:
+            go = "KILLED"
+        return dict(op=op, args=args, go=go, feats="fault-reached", meas="", note=err.strip()[-400:], seed=seed)
+    parts = [p.strip() for p in out.splitlines()[0].split(" | ")]
+    return dict(op=op, args=args, go=parts[1] if len(parts) > 1 else "", feats=parts[2] if len(parts) > 2 else "",
+                meas=parts[3] if len(parts) > 3 else "", note="", seed=seed)
+
+
+def confirm_failures(ctx, gobin, items, label):
+    """items: [dict(case=<case dict with op, args, seed, line, go>, sig=<hashable verdict>, judge=<fn(case dict) -> verdict or None>)],
+    the failing cases of one enumeration, in order.  A failure is reported only when re-running its
+    case alone reproduces the SAME verdict in one of up to two re-runs.  Returns (set of confirmed
+    indexes into items, list of not-reproduced records)."""
+    confirmed, flaky = set(), []
+    if not items:
+        return confirmed, flaky
+
+    def attempt(it):
+        outs = []
+        for _ in range(2):
+            c2 = rerun_case(gobin, it["case"].get("seed", ctx.seed), it["case"]["op"], it["case"]["args"])
+            outs.append(c2["go"] + (" | " + c2["meas"] if c2.get("meas") else ""))
+            try:
+                if it["judge"](c2) == it["sig"]:
+                    return True, outs
+            except Exception as e:                      # an unparsable re-run is not a reproduction
+                outs[-1] += " (judge: %r)" % (e,)
+        return False, outs
+
+    order = list(range(len(items)))
+    if len(items) > RERUN_CAP:
+        step = len(items) / float(RERUN_SAMPLE)
+        sample = sorted({int(i * step) for i in range(RERUN_SAMPLE)})
+        ok = 0
+        for i in sample:
+            good, outs = attempt(items[i])
+            if good:
+                ok += 1
+                confirmed.add(i)
+            else:
+                flaky.append(dict(case=items[i]["case"]["line"], first=items[i]["case"]["go"], reruns=outs))
+        if ok >= min(RERUN_SAMPLE_OK, len(sample)):
+            confirmed = set(order)                      # systemic and reproducible: everything is reported
+            flaky = [f for f in flaky]
+        else:
+            for i in order[:RERUN_CAP]:
+                if i in sample:
+                    continue
+                good, outs = attempt(items[i])
+                if good:
+                    confirmed.add(i)
+                else:
+                    flaky.append(dict(case=items[i]["case"]["line"], first=items[i]["case"]["go"], reruns=outs))
+            dropped = len(items) - len(set(order[:RERUN_CAP]) | set(sample))
+            if dropped > 0:
+                flaky.append(dict(case=f"{dropped} further failing cases of {label} were not re-run (cap {RERUN_CAP}) and are not reported",
+                                  first="", reruns=[]))
+    else:
+        for i in order:
+            good, outs = attempt(items[i])
+            if good:
+                confirmed.add(i)
+            else:
+                flaky.append(dict(case=items[i]["case"]["line"], first=items[i]["case"]["go"], reruns=outs))
+    if flaky and hasattr(ctx, "notes"):
+        ctx.notes.append(f"C18 {label}: {len(flaky)} failing case(s) of the parallel run were NOT reproduced when re-run alone and are not reported "
+                         f"(first: {flaky[0]['case']} | {flaky[0]['first']} -> {flaky[0]['reruns'][:1]})")
+    return confirmed, flaky
+
+
 def setup():
     go_build_c18()
     L.ocaml_build("c18")
@@ -248,17 +344,40 @@ def correspondence(ctx):
         failures.append(f)
 
     # the property evaluated on the implementation's own output (this also catches what the
-    # faithful model reproduces)
-    flagged = set()
+    # faithful model reproduces); model / implementation disagreements that are not already
+    # explained as violations.  Every failing case is first re-run alone (confirm_failures):
+    # only a verdict that reproduces is reported.
+    def verdict_for(model_out):
+        def judge(c2):
+            v = violations_of(c2)
+            if v:
+                return ("prop", tuple(sorted(_norm(w, k) for w, k in v)))
+            if model_out is not None and c2["go"] != model_out:
+                return ("diff", c2["go"])
+            return None
+        return judge
+
+    items = []
     for c in cases:
-        for what, key in violations_of(c):
-            flagged.add(c["id"])
-            add("property", what, c, key=key, model=res.get(c["id"]))
-    # model / implementation disagreements that are not already explained as violations
-    for c in bad[:50]:
-        if c["id"] in flagged:
+        judge = verdict_for(res.get(c["id"]))
+        sig = judge(c)
+        if sig is not None:
+            items.append(dict(case=c, sig=sig, judge=judge))
+    confirmed, flaky = confirm_failures(ctx, gobin, items, "enumeration")
+    flagged = set()
+    ndiff = 0
+    for i, it in enumerate(items):
+        if i not in confirmed:
             continue
-        add("correspondence", "model and implementation journal differ but the implementation's output satisfies the property", c, model=c.get("model"))
+        c = it["case"]
+        if it["sig"][0] == "prop":
+            for what, key in violations_of(c):
+                flagged.add(c["id"])
+                add("property", what, c, key=key, model=res.get(c["id"]))
+        else:
+            ndiff += 1
+            if ndiff <= 50:
+                add("correspondence", "model and implementation journal differ but the implementation's output satisfies the property", c, model=res.get(c["id"]))
     for k, v in by_key.items():
         if v["n"] > 1:
             v["f"]["what"] += f" ({v['n']} scripts; first shown)"
@@ -318,7 +437,9 @@ def correspondence(ctx):
                      "outcome class K (ok / mech / eof / ueof / proto / timeout); predicate: Transport allocation <= 1 MiB + 4 x bytes received. Non-trivial: anything but right "
                      "credentials 'alice' without fault; distinct by hash of the case arguments.",
                 samples=samples, failures=failures,
-                extra=dict(raw_read_cases=len(raw),
+                extra=dict(flaky_not_reproduced=flaky,
+                           failing_cases_before_rerun=len(items), failing_cases_confirmed=len(confirmed),
+                           raw_read_cases=len(raw),
                            raw_read_transport_max_alloc=t_max,
                            raw_read_transport_bound="runtime.MemStats.TotalAlloc around Transport.RoundTrip <= 1 MiB + 4 x bytes of the raw response put on the wire",
                            raw_read_model_bound_holds_on_cases=model_bound_ok,
@@ -405,20 +526,43 @@ def raw_sasl_cut_cases(ctx):
         if line.startswith("NOTE "):
             _, i, rest = line.split(" ", 2)
             notes[i] = rest
+    def cut_case(cid, op, args, go, feats, meas_s, note):
+        meas = dict(x.split("=") for x in meas_s.split()) if meas_s else {}
+        path, mech, fstep, k, end, pad = args.split(" ")
+        return dict(id=cid, op=op, args=args, line=f"{cid} {op} {args}", go=go, feats=feats, path=path, mech=mech,
+                    fstep=int(fstep, 16), k=int(k, 16), end=end, pad=int(pad, 16), frame=int(meas.get("frame", 0)),
+                    alloc=int(meas.get("alloc", 0)), note=note, seed=ctx.seed, was_cut=meas.get("cut") == "true")
+
+    def cut_bad(c):
+        """the predicate on the implementation's own output: list of what is wrong"""
+        r = parse_result(c["go"])
+        bad = []
+        if r["special"]:
+            if r["special"] == "OOM" and c["path"] == "d":
+                return []
+            return ["the client ended in " + r["special"]]
+        f = dict(x.split("=", 1) for x in c["go"].split(" "))
+        if not r["E"] or f.get("K") in ("ok", "use"):
+            bad.append("no error was returned (the cut response was taken for the broker's complete answer)")
+        if int(f.get("N", "0")) != c["fstep"] - 2:
+            bad.append(f"the mechanism was handed {f.get('N')} challenges, {c['fstep'] - 2} had arrived completely: it was given the truncated message")
+        if r["E"] and not r["C"]:
+            bad.append("the connection was not closed by the library when it returned the error")
+        if any(t.endswith("!") for t in r["toks"]):
+            bad.append("requests were written after the cut: " + ",".join(t for t in r["toks"] if t.endswith("!")))
+        return bad
+
     cases, not_cut = [], 0
     for line in out.splitlines():
         parts = [p.strip() for p in line.split(" | ")]
         if len(parts) < 4:
             continue
         cid, op, args = parts[0].split(" ", 2)
-        meas = dict(x.split("=") for x in parts[3].split())
-        if meas.get("cut") != "true":
+        c = cut_case(cid, op, args, parts[1], parts[2], parts[3], notes.get(cid, ""))
+        if not c["was_cut"] and not parse_result(c["go"])["special"]:
             not_cut += 1
             continue
-        path, mech, fstep, k, end, pad = args.split(" ")
-        cases.append(dict(id=cid, op=op, args=args, line=parts[0], go=parts[1], feats=parts[2], path=path, mech=mech,
-                          fstep=int(fstep, 16), k=int(k, 16), end=end, pad=int(pad, 16), frame=int(meas["frame"]),
-                          alloc=int(meas["alloc"]), note=notes.get(cid, "")))
+        cases.append(c)
     # the model on the cuts at or after the prefix
     mlines, mids = [], {}
     for c in cases:
@@ -434,37 +578,44 @@ def raw_sasl_cut_cases(ctx):
         failures.append(dict(layer=layer, what=what, input=inp,
                              detail=json.dumps(dict(case=c["line"], go=c["go"], model=model_out, frame=c["frame"], note=c["note"][:400]))))
 
+    def verdict_for(orig):
+        m = mres.get(orig["id"], "").split(" ; ")[0] if orig["k"] >= 4 else None
+
+        def judge(c2):
+            if "line" not in c2:        # a re-run: rebuild the case from the harness's output
+                c2 = cut_case(orig["id"], c2["op"], c2["args"], c2["go"], c2["feats"], c2.get("meas", ""), c2.get("note", ""))
+            bad = cut_bad(c2)
+            if bad:
+                return ("prop", tuple(sorted(_norm(b, None) for b in bad)))
+            g = " ".join(x for x in c2["go"].split(" ") if not x.startswith("N="))
+            if m is not None and m != g:
+                return ("diff", g)
+            return None
+        return judge
+
+    items = []
     for c in cases:
         for f in c["feats"].split(","):
             if f.split("=")[0] in ("path", "mech", "fstep", "end", "pad", "cut"):
                 hist["sasl-raw:" + f] = hist.get("sasl-raw:" + f, 0) + 1
         seen.add(c["args"])
-        where = f"raw SASL response ({c['mech']} step {c['fstep']}, {'Conn' if c['path'] == 'd' else 'Transport'} path) cut after {c['k']} of {c['frame']} bytes then {c['end']}"
-        r = parse_result(c["go"])
-        bad = []
-        if r["special"]:
-            if r["special"] == "OOM" and c["path"] == "d":
-                continue
-            bad.append("the client ended in " + r["special"])
-        else:
-            f = dict(x.split("=", 1) for x in c["go"].split(" "))
-            if not r["E"] or f.get("K") in ("ok", "use"):
-                bad.append("no error was returned (the cut response was taken for the broker's complete answer)")
-            if int(f.get("N", "0")) != c["fstep"] - 2:
-                bad.append(f"the mechanism was handed {f.get('N')} challenges, {c['fstep'] - 2} had arrived completely: it was given the truncated message")
-            if r["E"] and not r["C"]:
-                bad.append("the connection was not closed by the library when it returned the error")
-            if any(t.endswith("!") for t in r["toks"]):
-                bad.append("requests were written after the cut: " + ",".join(t for t in r["toks"] if t.endswith("!")))
-        if bad:
-            add("property", where + ": " + "; ".join(bad), c, mres.get(c["id"]))
-            continue
         if c["k"] >= 4:
             n_model += 1
-            m = mres.get(c["id"], "").split(" ; ")[0]
-            g = " ".join(x for x in c["go"].split(" ") if not x.startswith("N="))
-            if m != g:
-                add("correspondence", where + ": model and implementation differ although the implementation's output satisfies the property", c, m)
+        judge = verdict_for(c)
+        sig = judge(c)
+        if sig is not None:
+            items.append(dict(case=c, sig=sig, judge=judge))
+    confirmed, flaky = confirm_failures(ctx, gobin, items, "raw SASL cuts")
+    for i, it in enumerate(items):
+        if i not in confirmed:
+            continue
+        c = it["case"]
+        where = f"raw SASL response ({c['mech']} step {c['fstep']}, {'Conn' if c['path'] == 'd' else 'Transport'} path) cut after {c['k']} of {c['frame']} bytes then {c['end']}"
+        if it["sig"][0] == "prop":
+            add("property", where + ": " + "; ".join(cut_bad(c)), c, mres.get(c["id"]))
+        else:
+            add("correspondence", where + ": model and implementation differ although the implementation's output satisfies the property", c,
+                mres.get(c["id"], "").split(" ; ")[0])
     # group: one failure per (path, mech, step, what-kind) is enough for the report
     grouped, keys = [], {}
     for f in failures:
@@ -487,7 +638,8 @@ def raw_sasl_cut_cases(ctx):
                 failures=grouped[:12],
                 notes=[f"raw SASL cuts: {len(cases)} cuts run, {n_model} compared with the model (cuts inside the 4-byte prefix are judged by the predicate only), "
                        f"{not_cut} enumerated positions were at or past the end of the frame and dropped"],
-                extra=dict(raw_sasl_cut_evaluations=len(cases), raw_sasl_cut_model_compared=n_model))
+                extra=dict(raw_sasl_cut_evaluations=len(cases), raw_sasl_cut_model_compared=n_model,
+                           raw_sasl_cut_flaky_not_reproduced=flaky))
 
 
 def raw_sasl_alloc_cases(ctx):
@@ -503,6 +655,21 @@ def raw_sasl_alloc_cases(ctx):
         raise L.Fail("correspondence", "harness cmd/c18 -subset rawread failed", (out[-1500:] + err[-2500:]))
     failures, hist, n, nontrivial = [], {}, 0, set()
     worst = dict(alloc=0)
+
+    def alloc_what(a, go, meas_s):
+        alloc, recv = parse_meas(meas_s)
+        if go.startswith("OOM"):
+            return "the client ran out of memory (ulimit -v) reading a raw SASL response"
+        if go.startswith("PANIC"):
+            return "the client panicked reading a raw SASL response"
+        if go.startswith(("KILLED", "UNSETTLED", "HANG")):
+            return "no result: " + go.split(" ")[0]
+        if alloc > ALLOC_SLACK + 4 * recv:
+            return (f"Transport raw SASL response read: {alloc} bytes allocated (runtime.MemStats.TotalAlloc) for a response of which "
+                    f"{recv} bytes arrived (announced length {a['prefix']}); bound 1 MiB + 4 x received")
+        return None
+
+    items = []
     for line in out.splitlines():
         parts = [p.strip() for p in line.split(" | ")]
         if len(parts) < 4:
@@ -519,20 +686,21 @@ def raw_sasl_alloc_cases(ctx):
         if alloc >= worst["alloc"]:
             worst = dict(alloc=alloc, recv=recv, case=parts[0])
         go = parts[1]
-        what = None
-        if go.startswith("OOM"):
-            what = "the client ran out of memory (ulimit -v) reading a raw SASL response"
-        elif go.startswith("PANIC"):
-            what = "the client panicked reading a raw SASL response"
-        elif alloc > ALLOC_SLACK + 4 * recv:
-            what = (f"Transport raw SASL response read: {alloc} bytes allocated (runtime.MemStats.TotalAlloc) for a response of which "
-                    f"{recv} bytes arrived (announced length {a['prefix']}); bound 1 MiB + 4 x received")
-        if what and len(failures) < 3:
-            failures.append(dict(layer="property", what=what, key=None,
-                                 input=dict(case=parts[0], go=go, meas=parts[3], seed=ctx.seed,
-                                            replay="build/bin/c18 -seed %d -case '%s %s'" % (ctx.seed, op, args)),
-                                 detail=json.dumps(dict(case=parts[0], go=go, meas=parts[3]))))
+        what = alloc_what(a, go, parts[3])
+        if what:
+            judge = (lambda a_: lambda c2: (lambda w: _norm(w, None) if w else None)(alloc_what(a_, c2["go"], c2.get("meas", ""))))(a)
+            items.append(dict(case=dict(op=op, args=args, seed=ctx.seed, line=parts[0], go=go, meas=parts[3], what=what),
+                              sig=_norm(what, None), judge=judge))
+    confirmed, flaky = confirm_failures(ctx, gobin, items, "raw SASL allocation")
+    for i, it in enumerate(items):
+        c = it["case"]
+        if i in confirmed and len(failures) < 3:
+            failures.append(dict(layer="property", what=c["what"], key=None,
+                                 input=dict(case=c["line"], go=c["go"], meas=c["meas"], seed=ctx.seed,
+                                            replay="build/bin/c18 -seed %d -case '%s %s'" % (ctx.seed, c["op"], c["args"])),
+                                 detail=json.dumps(dict(case=c["line"], go=c["go"], meas=c["meas"]))))
     return dict(evaluations=n, distinct_nontrivial=len(nontrivial), hist=hist, failures=failures, worst=worst,
+                extra=dict(raw_sasl_alloc_flaky_not_reproduced=flaky),
                 samples=[worst.get("case", "") + " | alloc=%d recv=%d" % (worst.get("alloc", 0), worst.get("recv", 0))])
 
 
@@ -555,27 +723,51 @@ def sasl_framing_cases(ctx):
         c["line"] = c["id"] + " " + c["op"] + " " + c["args"]
     res = L.run_model(model, "\n".join(c["line"] for c in cases) + "\n")
     failures, hist, nontrivial = [], {}, set()
+
+    def framing_bad(c):
+        return [w for (w, key) in violations_of(c) if ("handshake" in w or "raw" in w or "framed" in w or w.startswith("no result"))]
+
+    def verdict_for(model_out):
+        m = model_out.split(" ; ", 1)[0] if model_out is not None else None
+
+        def judge(c2):
+            bad = framing_bad(c2)
+            if bad:
+                return ("prop", _norm(bad[0], None))
+            if m is not None and m != c2["go"]:
+                return ("diff", c2["go"])
+            return None
+        return judge
+
+    items = []
     for c in cases:
         a = parse_args(c["args"])
         k = "sasl-framing:path=%s,hs=%s,au=%s" % (a["path"], a["hs"], a["au"])
         hist[k] = hist.get(k, 0) + 1
         nontrivial.add(c["args"])
-        bad = [w for (w, key) in violations_of(c) if ("handshake" in w or "raw" in w or "framed" in w)]
-        for w in bad[:1]:
-            if len(failures) < 4:
-                failures.append(dict(layer="property", key=None, what="C04 SASL exchange framing: " + w,
-                                     input=dict(case=c["line"], go=c["go"], model=res.get(c["id"]), seed=ctx.seed,
-                                                replay="build/bin/c18 -seed %d -case '%s'" % (ctx.seed, c["args"])),
-                                     detail=json.dumps(dict(case=c["line"], go=c["go"], model=res.get(c["id"])))))
-    nd = 0
-    for c in cases:
-        m = res.get(c["id"])
-        if m is not None and " ; " in m:
-            m = m.split(" ; ", 1)[0]
-        if m is not None and m != c["go"] and not failures:
+        c["seed"] = ctx.seed
+        judge = verdict_for(res.get(c["id"]))
+        sig = judge(c)
+        if sig is not None:
+            items.append(dict(case=c, sig=sig, judge=judge))
+    confirmed, flaky = confirm_failures(ctx, gobin, items, "SASL framing")
+    nprop = nd = 0
+    for i, it in enumerate(items):
+        if i not in confirmed:
+            continue
+        c = it["case"]
+        if it["sig"][0] == "prop" and nprop < 4:
+            nprop += 1
+            failures.append(dict(layer="property", key=None, what="C04 SASL exchange framing: " + framing_bad(c)[0],
+                                 input=dict(case=c["line"], go=c["go"], model=res.get(c["id"]), seed=ctx.seed,
+                                            replay="build/bin/c18 -seed %d -case '%s'" % (ctx.seed, c["args"])),
+                                 detail=json.dumps(dict(case=c["line"], go=c["go"], model=res.get(c["id"])))))
+    for i, it in enumerate(items):
+        if i in confirmed and it["sig"][0] == "diff" and nprop == 0 and nd < 2:
             nd += 1
-            if nd <= 2:
-                failures.append(dict(layer="correspondence", what="SASL exchange (fault-free run): journal of the real client differs from the model",
-                                     input=None, detail=json.dumps(dict(case=c["line"], go=c["go"], model=m))))
+            c = it["case"]
+            failures.append(dict(layer="correspondence", what="SASL exchange (fault-free run): journal of the real client differs from the model",
+                                 input=None, detail=json.dumps(dict(case=c["line"], go=c["go"], model=res.get(c["id"])))))
     return dict(evaluations=len(cases), distinct_nontrivial=len(nontrivial), hist=hist, failures=failures,
+                extra=dict(sasl_framing_flaky_not_reproduced=flaky),
                 samples=[c["line"] + " | " + c["go"] for c in cases[:1] + cases[-2:]])
